@@ -311,7 +311,16 @@ def r2_edge_provenance(ctx):
                 ty = site[0].argtys[0] if site and site[0].argtys else ''
                 bounded = any(a in ty for a in ('Take<', 'TakeWhile<', 'StepBy<', 'Skip<'))
                 hdr = innermost_loop(f, b)
-                early = hdr is not None and not loop_exits_only_on_exhaustion(f, hdr)
+                # an exit of the walk loop decided by a comparison (a hop budget, a depth limit) rather than by the iterator running out
+                early = False
+                if hdr is not None:
+                    body_ = f.loops()[hdr]
+                    for u_ in body_:
+                        t_ = f.term(u_)
+                        if t_['k'] == 'switch' and any(v_ not in body_ for v_ in f.succs(u_)):
+                            c_ = peel(f.expr_operand(t_['d'], u_, 'T'))
+                            if c_[0] == 'bin' and str(c_[1]) in ('Eq', 'Ne', 'Lt', 'Le', 'Gt', 'Ge') and any(x[0] == 'int' for x in (peel(c_[2]), peel(c_[3]))):
+                                early = True
                 ctx.check(not bounded and not early, 'walk-whole-chain:%s' % key.split('::')[-1],
                           'the end gate is found by walking the whole gate chain (chains of any length): a hop bound makes the edge of a longer chain end at an intermediate transit gate',
                           f.where(b), {'iterator': ty, 'loop_left_before_exhaustion': early})
